@@ -27,23 +27,35 @@ def theorems():
 
 def seeded():
     rows = []
+    n_first = n_now = n = 0
     for path in sorted(glob.glob('/verif/seeded/*/meta.json')):
         m = json.load(open(path))
-        checks = m.get('checks', {})
-        det = []
-        for p, r in checks.items():
-            v = r.get('violations') or []
-            kind = 'no-failing-input-found' if v and 'no-failing-input-found' in v[0] else ('failing input' if v else 'silent')
-            det.append('%s: %s' % (p, kind))
-        need = (m.get('needs_to_manifest') or '').strip().splitlines()
-        need = ' '.join(need[:3])[:160].replace('|', '/')
-        rows.append('| %s | %s | %s | %s | %s |' % (m['name'], m['property'], 'yes' if m.get('confirmed') else 'NO',
-                                                 ', '.join(m.get('caught_by') or []) or '**missed**', '; '.join(det)))
+        h = m.get('history', '') or ''
+        missed_first = ('did NOT' in h) or ('missed' in h.lower() and 'Regression note' not in h[:20]) or not (m.get('caught_by') or 'did NOT' in h or m.get('recheck'))
+        missed_first = ('did NOT' in h) or (not m.get('caught_by') and 'First run' in h)
+        rc = m.get('recheck') or {}
+        now = rc.get('caught')
+        if now is None:
+            now = bool(m.get('caught_by'))
+        kind = ''
+        if now:
+            kind = 'no-failing-input-found only' if rc.get('no_failing_input') else 'failing input'
+        n += 1
+        n_first += 0 if missed_first else 1
+        n_now += 1 if now else 0
+        rows.append('| %s | %s | %s | %s | %s | %s |' % (m['name'], m['property'], 'yes' if m.get('confirmed') else 'NO',
+                                                      'missed' if missed_first else 'caught',
+                                                      ('caught (%s)' % kind) if now else '**missed**',
+                                                      (rc.get('at') or m.get('verified_at') or '')[:10]))
     head = ['## Appendix S — seeded-change study (generated from seeded/*/meta.json)\n',
-            'Each change was written by a fresh sub-agent that saw only the property text and a scratch worktree; '
-            '"confirmed" = demo passes on the original, fails on the change, and the 34 baseline tests still pass '
-            '(re-run by `harness/seeded.py`). "caught by" = checks (quick tier) that exit 1 with the change applied to /repo.\n',
-            '| change | property | confirmed | caught by | detail |', '|---|---|---|---|---|']
+            'Each change was written by a fresh sub-agent that saw only the property text (from round 2 on also one line per '
+            'mechanism already studied) and a scratch worktree; "confirmed" = demo passes on the original, fails on the change, '
+            'and the 34 baseline tests still pass (re-run by `harness/seeded.py verify`). "first run" = the check of its own '
+            'property (quick tier) as it was when the change arrived; "now" = the same check at the last regression run over '
+            'all stored changes (`harness/seeded.py recheck`: patch applied to /repo, check run, patch reverted). What was '
+            'widened after a miss is in `seeded/<name>/meta.json` (`history`).\n',
+            '%d changes; caught at first run: %d; caught now: %d.\n' % (n, n_first, n_now),
+            '| change | property | confirmed | first run | now | last run |', '|---|---|---|---|---|---|']
     return '\n'.join(head + rows) + '\n'
 
 
